@@ -388,6 +388,20 @@ def _kwonly_selected(f):
                     sel += cfg.nodes_of(i, 'false')
                     guards.append(i)
     if not sel:
+        # comprehension form: {name: .. for name, p in params.items() if p.kind is p.KEYWORD_ONLY and ..}
+        for comp in ast.walk(f.node):
+            if isinstance(comp, (ast.DictComp, ast.ListComp, ast.SetComp, ast.GeneratorExp)):
+                for g in comp.generators:
+                    conds = []
+                    for i in g.ifs:
+                        conds += i.values if isinstance(i, ast.BoolOp) and isinstance(i.op, ast.And) else [i]
+                    for c in conds:
+                        if isinstance(c, ast.Compare) and len(c.ops) == 1 and isinstance(c.ops[0], (ast.Is, ast.Eq)):
+                            l, r = c.left, c.comparators[0]
+                            if isinstance(r, ast.Attribute) and r.attr == 'kind':
+                                l, r = r, l
+                            if isinstance(l, ast.Attribute) and l.attr == 'kind' and isinstance(r, ast.Attribute) and r.attr == 'KEYWORD_ONLY':
+                                return True
         return False
     loops = [l for l in walk_local(f.node) if isinstance(l, (ast.For, ast.AsyncFor)) and any(g in list(ast.walk(l)) for g in guards)]
     if not loops:
